@@ -22,6 +22,8 @@ import (
 	banktypes "github.com/cosmos/cosmos-sdk/x/bank/types"
 	distrtypes "github.com/cosmos/cosmos-sdk/x/distribution/types"
 	stakingtypes "github.com/cosmos/cosmos-sdk/x/staking/types"
+	transfertypes "github.com/cosmos/ibc-go/v7/modules/apps/transfer/types"
+	clienttypes "github.com/cosmos/ibc-go/v7/modules/core/02-client/types"
 	"github.com/ethereum/go-ethereum/accounts/abi"
 	"github.com/ethereum/go-ethereum/common"
 	"github.com/ethereum/go-ethereum/common/hexutil"
@@ -65,6 +67,9 @@ func newDriver(tier string) *driver {
 	if _, err := w.App.Erc20Keeper.RegisterCoin(w.Ctx(), banktypes.Metadata{
 		Description: "test", Base: "atest", Display: "test", Name: "test", Symbol: "TEST",
 		DenomUnits: []*banktypes.DenomUnit{{Denom: "atest", Exponent: 0}, {Denom: "test", Exponent: 18}}}); err != nil {
+		panic(err)
+	}
+	if err := w.OpenLocalhostChannels(w.Ctx()); err != nil {
 		panic(err)
 	}
 	w.NextBlock(6 * time.Second)
@@ -232,6 +237,29 @@ func (d *driver) calls() []call {
 			c.native = []sdk.Msg{&distrtypes.MsgSetWithdrawAddress{DelegatorAddress: O.String(), WithdrawAddress: wa.s}}
 		}
 		out = append(out, c)
+	}
+	// ICS-20 transfer over the looped-back localhost channel
+	type height struct {
+		RevisionNumber uint64
+		RevisionHeight uint64
+	}
+	recv := w.Addrs[d.W].String()
+	for _, chn := range []string{world.IBCChannelA, "channel-9"} {
+		for _, dn := range []string{world.Denom, "atest", "nosuchdenom"} {
+			for _, k := range []string{"0", "1", "mid", "all+1"} {
+				for _, th := range []height{{3, 100000}, {3, 1}} {
+					a := amts(bal)[k]
+					if dn == "atest" && k == "all+1" {
+						a = big.NewInt(1001)
+					}
+					c := call{name: fmt.Sprintf("ics20.transfer(%s,%s,%s,timeout%d)", chn, dn, k, th.RevisionHeight), to: precomp.ICS20Addr,
+						data: precomp.MustPack(d.abis.ICS20, "transfer", world.IBCPort, chn, dn, a, oHex, recv, th, uint64(0), "")}
+					c.native = []sdk.Msg{&transfertypes.MsgTransfer{SourcePort: world.IBCPort, SourceChannel: chn, Token: sdk.Coin{Denom: dn, Amount: sdkmath.NewIntFromBigInt(a)},
+						Sender: O.String(), Receiver: recv, TimeoutHeight: clienttypes.NewHeight(th.RevisionNumber, th.RevisionHeight)}}
+					out = append(out, c)
+				}
+			}
+		}
 	}
 	// claimRewards(n) == withdrawing from the first n validators the delegator is bonded to
 	dels := w.App.StakingKeeper.GetDelegatorDelegations(ctx, O, 100)
@@ -571,7 +599,7 @@ func Run(tier string) int {
 		Assumptions: []string{
 			"gas price 0 so that fees do not enter the comparison ('balances apart from gas')",
 			"claimRewards(n) is compared with n native MsgWithdrawDelegatorReward in the keeper's delegation order",
-			"ICS-20 and createValidator / withdrawValidatorCommission legs are not in this alphabet (see DESIGN.md)",
+			"ICS-20 transfers run over two transfer channel ends written on ibc-go's sentinel localhost connection; createValidator / withdrawValidatorCommission are not in this alphabet",
 			"query outputs are compared on the module's figures being present in the decoded output",
 		},
 	})
@@ -584,6 +612,9 @@ func (d *driver) filterAcc(diff []string) []string {
 	var out []string
 	for _, l := range diff {
 		if strings.HasPrefix(l, "676c6f62616c4163636f756e744e756d626572:") { // globalAccountNumber
+			continue
+		}
+		if strings.HasPrefix(l, "6163636f756e744e756d626572") { // accountNumber index (numbers are shifted, see below)
 			continue
 		}
 		if strings.Contains(l, strings.Repeat("0", 36)+"080") { // 0x..0800-0x..0804
@@ -613,6 +644,7 @@ func (d *driver) sameButSequence(a, b string) bool {
 			return h
 		}
 		_ = acc.SetSequence(0)
+		_ = acc.SetAccountNumber(0) // shifted by the account the EVM created for the precompile address
 		out, err := d.w.App.AccountKeeper.MarshalAccount(acc)
 		if err != nil {
 			return h
